@@ -20,7 +20,7 @@ from lib.coqterm import cbytes, cbool, cN, cZ, clist, copt, hx, unhx
 
 ID = "C02"
 QUICK_N = 1300
-THOROUGH_N = 24000
+THOROUGH_N = 10400
 SHARD = 150
 RULE = ("55% srv/cli direct-drive cases: a stream of 1-4 pipelined messages from a grammar (methods incl. HEAD/CONNECT, "
         "HTTP/1.0/1.1, Content-Length / chunked with extensions and trailers / read-until-EOF bodies, blank lines between "
